@@ -373,9 +373,11 @@ pub fn run(p: &Params) -> Report {
     let n = p.budget(80_000, 8_000_000);
     for i in 0..n {
         if i % 4 == 3 {
-            filter_scenario(p.shard_seed(0x18_000_000 + i), &mut rep);
+            let seed = p.shard_seed(0x18_000_000 + i);
+            crate::util::guarded(&mut rep, seed, |rep| filter_scenario(seed, rep));
         } else {
-            limiter_scenario(p.shard_seed(i), &mut rep);
+            let seed = p.shard_seed(i);
+            crate::util::guarded(&mut rep, seed, |rep| limiter_scenario(seed, rep));
         }
     }
     rep
